@@ -252,7 +252,7 @@ func (r *vRun) checkSide(step int, call vCall, side *vSide, tx gorp.Tx, full boo
 	if tx != nil {
 		view = "tx"
 	}
-	cs := fmt.Sprintf("%s(%s%s%s)", call.A, call.R, sep(call.P), sep(call.S))
+	cs := fmt.Sprintf("%s(%s)", call.A, strings.TrimPrefix(call.R+sep(call.P)+sep(call.S), ","))
 	var enf interface {
 		Enforce(context.Context, access.Request) error
 	}
